@@ -14,7 +14,9 @@ SubsetCases ==
   \cup { [kind |-> "output", fields |-> SetToSeq(s), outkind |-> k, nin |-> 1, nout |-> 2] : s \in Subsets("output"), k \in {"explicit", "commit", "mixed-a", "mixed-v", "marked", "blinded"} }   \* mixed-a: explicit amount, committed asset; mixed-v: the reverse
 
 \* fully populated bases; instance counts of keyed fields as the harness's setters produce them
-Inst(kind, f) == IF ~IsKeyed(kind, f) THEN {0} ELSE IF f \in {"scalars", "proprietary"} /\ kind # "output" THEN {1, 2} ELSE {1}
+Inst(kind, f) == IF ~IsKeyed(kind, f) THEN {0} ELSE IF f = "scalars" THEN {1, 2, 3} ELSE IF f = "proprietary" /\ kind # "output" THEN {1, 2}
+                 ELSE IF kind = "input" /\ f \in {"partial_sigs", "bip32_derivation"} THEN {1, 2}      \* a compressed and an uncompressed key
+                 ELSE {1}
 FullBase(kind) == UNION { { P(f, k) : k \in Inst(kind, f) } : f \in (IF kind = "output" THEN Fields(kind) \ {"amount", "asset"} ELSE Fields(kind)) }
 Edits(kind) ==
   { [op |-> "drop", f |-> p[1], k |-> p[2]] : p \in FullBase(kind) }
@@ -36,7 +38,7 @@ EditCases == UNION { { LET d == Dec(kind, ApplyEdit(kind, e)) IN
                                  ELSE IF kind = "global" /\ (e.op = "reverse" \/ (e.op = "tofront" /\ e.f = "scalars")) THEN "any" ELSE "yes"]
                        : e \in Edits(kind) } : kind \in {"global", "input", "output"} }
 TopCases == { [kind |-> "top", edit |-> [op |-> o, f |-> "", k |-> 0], ok |-> FALSE, why |-> o, same |-> "no"]
-              : o \in {"input_count+1", "input_count-1", "output_count+1", "output_count-1", "bad_magic", "bad_separator", "drop_last_map", "extra_empty_map", "truncate_1"} }
+              : o \in {"input_count+1", "input_count-1", "output_count+1", "output_count-1", "bad_magic", "bad_separator", "drop_last_map", "extra_empty_map", "truncate_1", "trailing_byte"} }
 Tables == [g |-> GlobalTable, i |-> InputTable, o |-> OutputTable,
            base |-> [k \in {"global", "input", "output"} |-> SetToSeq({ <<p[1], p[2]>> : p \in FullBase(k) })]]
 
